@@ -2,6 +2,7 @@ SPECIFICATION TraceSpec
 CONSTANTS
   Versions = {1, 2}
   Handles = {1, 2, 3, 4, 5, 6}
+  Closures = {1, 2, 3, 4}
   MaxMods = 1000000
   MaxGens = 1000000
 INVARIANT TraceInv
